@@ -1706,7 +1706,8 @@ macro_rules! assign_2d_range_all_b {
     for cix in 0..($sink).ncols() {
       for rix in 0..$ix.len() {
         if $ix[rix] == true {
-          ($sink).column_mut(cix)[rix - 1] = ($source).clone();
+          // rix is the 0-based position in the mask, i.e. already the row offset
+          ($sink).column_mut(cix)[rix] = ($source).clone();
         }
       }
     }
